@@ -822,14 +822,26 @@ class NodeFor:
         self.what = what
 
     def evaluate(self, environment):
+        # a loop variable hides a variable of the same name (same scope)
+        # for the duration of the loop only
+        hidden = {
+            identifier: environment.map[identifier]
+            for identifier in self.identifiers
+            if identifier in environment.map
+        }
         try:
-            return self.evaluateLoop(environment)
+            result = self.evaluateLoop(environment)
         except CklRuntimeError:
             # a loop aborted by an error does not leave its variables behind
             for identifier in self.identifiers:
                 if identifier in environment.getLocalSymbols():
                     environment.remove(identifier)
+            for identifier, value in hidden.items():
+                environment.put(identifier, value)
             raise
+        for identifier, value in hidden.items():
+            environment.put(identifier, value)
+        return result
 
     def evaluateLoop(self, environment):
         lst = self.expression.evaluate(environment)
